@@ -29,6 +29,19 @@ impl BigUint {
         r.trim();
         r
     }
+    pub fn from_hex(h: &str) -> Self {
+        let mut l: Vec<u64> = Vec::new();
+        let b = h.as_bytes();
+        let mut end = b.len();
+        while end > 0 {
+            let start = end.saturating_sub(16);
+            l.push(u64::from_str_radix(&h[start..end], 16).expect("hex"));
+            end = start;
+        }
+        let mut r = BigUint { l };
+        r.trim();
+        r
+    }
     fn trim(&mut self) {
         while let Some(&0) = self.l.last() {
             self.l.pop();
